@@ -1194,13 +1194,25 @@ func (p *Polygon) decodeCompressed(d *decoder) {
 	// Polygons with no loops are explicitly allowed here: a newly created
 	// polygon has zero loops and such polygons encode and decode properly.
 	nloops := int(d.readUvarint())
+	if d.err != nil {
+		return
+	}
+	if nloops < 0 {
+		// The count does not fit in an int.
+		d.err = fmt.Errorf("too many loops (%d; max is %d)", uint64(nloops), maxEncodedLoops)
+		return
+	}
 	if nloops > maxEncodedLoops {
 		d.err = fmt.Errorf("too many loops (%d; max is %d)", nloops, maxEncodedLoops)
+		return
 	}
 	p.loops = make([]*Loop, nloops)
 	for i := range p.loops {
 		p.loops[i] = new(Loop)
 		p.loops[i].decodeCompressed(d, snapLevel)
+		if d.err != nil {
+			return
+		}
 	}
 	p.initLoopProperties()
 }
